@@ -400,9 +400,20 @@ pub fn explore_c15(unit_seed: u64, tier: Tier) -> UnitReport {
         },
         budget: budget + 64,
     });
+    // the longest limit there is: can never fire, must not matter
+    others.push(RunCfg {
+        entry: front,
+        gap,
+        limit: LimitSpec::MAX,
+        sched: Sched::Frozen,
+        budget,
+    });
     for cfg in others {
         if (no_progress || is_deep) && cfg.limit != (LimitSpec::Dur { secs: 0, nanos: 0 }) {
             continue;
+        }
+        if cfg.limit == LimitSpec::MAX {
+            rep.count("fault:limit-max(Duration::MAX)");
         }
         let res = run_one(&mut rep, cfg, !is_deep);
         // abstraction check: the outcome depends only on the first read that saw the
